@@ -720,7 +720,10 @@ class Condition(ConditionLike):
             # single pos-or-kw and nothing else, spec val is just that single value:
             spec_val = copy.deepcopy(next(iter(self.callable.kwargs.values())))
             if cast_types:
-                spec_val = INV_DTYPE_LOOKUP[spec_val]
+                if isinstance(spec_val, list):
+                    spec_val = [INV_DTYPE_LOOKUP[i] for i in spec_val]
+                else:
+                    spec_val = INV_DTYPE_LOOKUP[spec_val]
 
         elif len(func_args["POSITIONAL_OR_KEYWORD"]) > 1 and not any(
             func_args[i] for i in ("VAR_POSITIONAL", "VAR_KEYWORD")
